@@ -478,13 +478,27 @@ func (i *Interp) newTimerChan(d int64, period int64) (*chanv, *timer) {
 	return ch, t
 }
 
+// asDur extracts a duration; a symbolic duration (e.g. random jitter) is fixed
+// to one representative value: timer lengths do not influence which events
+// the virtual clock can order.
+func (i *Interp) asDur(v value, site string) int64 {
+	t, ok := v.(*smt.Term)
+	if !ok {
+		panic("asDur: not a term")
+	}
+	if !t.IsConst() {
+		t = i.concretizeOne(t, site)
+	}
+	return int64(t.C)
+}
+
 func registerTime() {
 	intrinsics["time.Now"] = func(i *Interp, fr *frame, fn *ssa.Function, args []value) value {
 		i.clock += 1000 // 1µs per observation
 		return i.timeValue(i.clock)
 	}
 	intrinsics["time.Sleep"] = func(i *Interp, fr *frame, fn *ssa.Function, args []value) value {
-		d := i.asInt(args[0], true, "time.Sleep")
+		d := i.asDur(args[0], "time.Sleep")
 		if d <= 0 {
 			return nil
 		}
@@ -495,11 +509,11 @@ func registerTime() {
 		return nil
 	}
 	intrinsics["time.After"] = func(i *Interp, fr *frame, fn *ssa.Function, args []value) value {
-		ch, _ := i.newTimerChan(i.asInt(args[0], true, "time.After"), 0)
+		ch, _ := i.newTimerChan(i.asDur(args[0], "time.After"), 0)
 		return ch
 	}
 	intrinsics["time.Tick"] = func(i *Interp, fr *frame, fn *ssa.Function, args []value) value {
-		d := i.asInt(args[0], true, "time.Tick")
+		d := i.asDur(args[0], "time.Tick")
 		ch, _ := i.newTimerChan(d, d)
 		return ch
 	}
@@ -513,16 +527,16 @@ func registerTime() {
 		return p
 	}
 	intrinsics["time.NewTimer"] = func(i *Interp, fr *frame, fn *ssa.Function, args []value) value {
-		ch, t := i.newTimerChan(i.asInt(args[0], true, "time.NewTimer"), 0)
+		ch, t := i.newTimerChan(i.asDur(args[0], "time.NewTimer"), 0)
 		return mkTimerObj(i, "Timer", ch, t)
 	}
 	intrinsics["time.NewTicker"] = func(i *Interp, fr *frame, fn *ssa.Function, args []value) value {
-		d := i.asInt(args[0], true, "time.NewTicker")
+		d := i.asDur(args[0], "time.NewTicker")
 		ch, t := i.newTimerChan(d, d)
 		return mkTimerObj(i, "Ticker", ch, t)
 	}
 	intrinsics["time.AfterFunc"] = func(i *Interp, fr *frame, fn *ssa.Function, args []value) value {
-		d := i.asInt(args[0], true, "time.AfterFunc")
+		d := i.asDur(args[0], "time.AfterFunc")
 		t := &timer{at: i.clock + d, fn: args[1]}
 		i.timers = append(i.timers, t)
 		tt := i.lookupType("time", "Timer")
@@ -551,14 +565,14 @@ func registerTime() {
 			return i.ctx.False
 		}
 		was := !t.fired && !t.stopped
-		t.at = i.clock + i.asInt(args[1], true, "Timer.Reset")
+		t.at = i.clock + i.asDur(args[1], "Timer.Reset")
 		t.fired, t.stopped = false, false
 		return i.ctx.BoolC(was)
 	}
 	intrinsics["(*time.Ticker).Reset"] = func(i *Interp, fr *frame, fn *ssa.Function, args []value) value {
 		t, ok := i.side[args[0]].(*timer)
 		if ok {
-			d := i.asInt(args[1], true, "Ticker.Reset")
+			d := i.asDur(args[1], "Ticker.Reset")
 			t.at, t.period, t.stopped = i.clock+d, d, false
 		}
 		return nil
